@@ -38,10 +38,55 @@ def exc_name(e):
     return "Other:%s@%s" % (type(e).__name__, where)
 
 
+CUR = {"session": None}
+
+
 def stk():
-    return {"expr_l": len(ctor.expr_l), "scope": len(ctor.constraint_scope_stack),
-            "expr_mode": len(expr_mode._expr_mode), "raw_mode": len(expr_mode._raw_mode),
-            "srcinfo": len(ctor.srcinfo_mode_s), "foreach": len(ctor.foreach_arr_s)}
+    d = {"expr_l": len(ctor.expr_l), "scope": len(ctor.constraint_scope_stack),
+         "expr_mode": len(expr_mode._expr_mode), "raw_mode": len(expr_mode._raw_mode),
+         "srcinfo": len(ctor.srcinfo_mode_s), "foreach": len(ctor.foreach_arr_s)}
+    s = CUR["session"]
+    if s is not None:
+        d.update(leftovers(s))
+    return d
+
+
+def leftovers(sess):
+    """temporary rewrites (ConstraintOverrideModel nodes) and live solver handles still reachable from
+    the models of the session's top-level objects - read by walking the model, no hook"""
+    from vsc.model.constraint_override_model import ConstraintOverrideModel
+    n_over = n_var = 0
+    seen = set()
+    stack = []
+    for o in sess.tops.values():
+        try:
+            stack.append(o.get_model())
+        except Exception:
+            pass
+    while stack:
+        x = stack.pop()
+        if id(x) in seen:
+            continue
+        seen.add(id(x))
+        if isinstance(x, ConstraintOverrideModel):
+            n_over += 1
+        if isinstance(x, (list, tuple)):
+            stack.extend(x)
+            continue
+        if isinstance(x, dict):
+            stack.extend(x.values())
+            continue
+        mod = getattr(type(x), "__module__", "") or ""
+        if not mod.startswith("vsc.model"):
+            continue
+        if getattr(x, "var", None) is not None and hasattr(x, "is_used_rand"):
+            n_var += 1
+        for k, v in vars(x).items():
+            if k in ("parent", "srcinfo", "val", "node", "var", "btor", "randstate"):
+                continue
+            if isinstance(v, (list, tuple, dict)) or (getattr(type(v), "__module__", "") or "").startswith("vsc.model"):
+                stack.append(v)
+    return {"overrides": n_over, "handles": n_var}
 
 
 def reset_globals():
@@ -65,6 +110,8 @@ class Session:
         self.cb_log = []
         self.objpath = {}
         REC.on_event = self.on_cb
+        CUR["session"] = self
+        self.fired = False
         self.cb_script = {}       # (phase, objpath) -> list of actions
 
     # ---------------------------------------------------------------- projection
@@ -179,6 +226,7 @@ class Session:
             if "raise" in act:
                 rec["seen"] = self.project()["v"]
                 rec["raised"] = True
+                self.fired = True
                 self.cb_log.append(rec)
                 raise Injected("injected in %s of %s" % (phase, path))
         rec["seen"] = self.project()["v"]
@@ -229,6 +277,9 @@ class Session:
     def op_construct(self, op):
         ent = [e for e in self.world["population"] if e["id"] == op["o"]][0]
 
+        fault = op.get("fault")
+        self.fired = False
+
         def do():
             if "cls" in ent:
                 self.tops[op["o"]] = self.classes[ent["cls"]]()
@@ -236,8 +287,21 @@ class Session:
                 o = worlds.build_free(ent)
                 o.get_model()
                 self.tops[op["o"]] = o
-        e = self.guarded(do)
-        self.emit({"op": "construct", "o": op["o"], "exc": e, "post": self.project(), "stk": stk()})
+        if fault:
+            self.hooks["raise_in_block"] = {(fault["cls"], fault["blk"]): fault.get("pos", 0)}
+            self.hooks["on_fire"] = self._mark_fired
+        try:
+            e = self.guarded(do)
+        finally:
+            self.hooks["raise_in_block"] = {}
+        ev = {"op": "construct", "o": op["o"], "exc": e, "post": self.project(), "stk": stk()}
+        if fault:
+            ev["fault"] = {"ph": "ctor", "o": op["o"]}
+            ev["fired"] = bool(self.fired)
+        self.emit(ev)
+
+    def _mark_fired(self):
+        self.fired = True
 
     def op_set(self, op):
         e = self.guarded(lambda: self.assign(op["p"], op["v"]))
@@ -321,6 +385,7 @@ class Session:
             em = Emit(lookup_fn)
             for i, st in enumerate(inline):
                 if body_raise is not None and body_raise == i:
+                    self.fired = True
                     raise Injected("injected in with-body at %d" % i)
                 em.stmt(st)
             for (p, b) in (extra_pins or []):
@@ -328,6 +393,7 @@ class Session:
                 tgt = pin_lookup(p)
                 tgt == self.to_py(p, b)
             if body_raise is not None and body_raise >= len(inline):
+                self.fired = True
                 raise Injected("injected at end of with-body")
 
         if kind == "method":
@@ -355,11 +421,20 @@ class Session:
         self.cb_script = {}
         for c in op.get("cb_script", []):
             self.cb_script.setdefault((c["ph"], c["o"]), []).append(c)
+        fault = op.get("fault")
+        self.fired = False
+        if fault and fault["ph"] in ("pre", "post"):
+            self.cb_script.setdefault((fault["ph"], fault["o"]), []).append({"raise": True})
+        elif fault and fault["ph"] == "body":
+            call = dict(call, raise_in_body=fault.get("pos", 0))
         pre = self.project()
         e = self.guarded(lambda: self._do_call(call))
         post = self.project()
         ev = {"op": "call", "call": self._call_rec(call), "pre": pre, "post": post, "exc": e,
               "cbs": self.cb_log, "stk": stk()}
+        if fault:
+            ev["fault"] = {"ph": fault["ph"], "o": fault.get("o", "")}
+            ev["fired"] = bool(self.fired)
         pres = [c for c in self.cb_log if c["ph"] == "pre"]
         if pres:
             # the state the solver saw: the projection at the end of the last pre_randomize callback
